@@ -64,6 +64,11 @@ pub struct SCfg {
     pub binary: Bin,
     pub encoding: Option<String>,
     pub bom_sniffing: bool,
+    /// An earlier input searched first with the same `Searcher` (same strategy,
+    /// results discarded): searchers are reused across files by every caller, and
+    /// what one search leaves behind must not leak into the next.
+    #[serde(default, skip_serializing_if = "Option::is_none")]
+    pub warm: Option<crate::bs::Bs>,
 }
 
 impl Default for SCfg {
@@ -80,6 +85,7 @@ impl Default for SCfg {
             binary: Bin::None,
             encoding: None,
             bom_sniffing: true,
+            warm: None,
         }
     }
 }
@@ -404,6 +410,9 @@ pub fn run<M: Matcher>(
     read_fault: Option<ReadFault>,
 ) -> RunOut {
     let mut searcher = build_searcher(cfg, strat);
+    if let Some(w) = &cfg.warm {
+        let _ = run_with(&mut searcher, &matcher, strat, &w.0, None, None);
+    }
     run_with(&mut searcher, matcher, strat, input, sink_fault, read_fault)
 }
 
